@@ -17,6 +17,7 @@ package sorted_set
 import (
 	"errors"
 	"fmt"
+	"github.com/echovault/sugardb/internal/constants"
 	"math"
 	"slices"
 	"strconv"
@@ -119,6 +120,27 @@ func extractKeysWeightsAggregateWithScores(cmd []string) ([]string, []float64, s
 		keys = cmd[1:]
 	} else {
 		keys = cmd[1:firstModifierIndex]
+		// Every token after the keys must belong to one of the options.
+		isModifier := func(s string) bool {
+			return slices.Contains([]string{"weights", "aggregate", "withscores"}, strings.ToLower(s))
+		}
+		for i := firstModifierIndex; i < len(cmd); {
+			switch strings.ToLower(cmd[i]) {
+			case "weights":
+				for i++; i < len(cmd) && !isModifier(cmd[i]); i++ {
+				}
+			case "aggregate":
+				i += 2
+			case "withscores":
+				i++
+			default:
+				return []string{}, []float64{}, "", false, fmt.Errorf("invalid option %s", cmd[i])
+			}
+		}
+	}
+
+	if len(keys) == 0 {
+		return []string{}, []float64{}, "", false, errors.New(constants.WrongArgsResponse)
 	}
 
 	if weightsIndex != -1 && (len(keys) != len(weights)) {
